@@ -54,7 +54,14 @@ func conditioningMethodReturn(
 	for _, defineArgT := range defineArgTs {
 		if defineArgT.HasDefault() {
 			variants := methodT.GetVariants()
-			return variants[len(removeBlockTypeArgs(evaluatedArgs))].DeepCopy()
+
+			// more arguments than the declaration has return variants for: the arity error is reported elsewhere
+			idx := len(removeBlockTypeArgs(evaluatedArgs))
+			if idx >= len(variants) {
+				return methodT
+			}
+
+			return variants[idx].DeepCopy()
 		}
 
 		if defineArgT.IsUnionType() {
@@ -170,9 +177,14 @@ func calculateExecutionType(
 
 	case base.BLOCK_RESULT_ARRAY:
 		blockT := m.parser.GetLastEvaluatedT()
-		blockResultT := blockT.GetVal().(*base.T)
-
 		arrayT := base.MakeAnyArray()
+
+		// no block was given (the arguments were something else): the element type stays open
+		blockResultT, ok := blockT.GetVal().(*base.T)
+		if !ok || blockResultT == nil {
+			return arrayT
+		}
+
 		arrayT.AppendArrayVariant(*blockResultT)
 
 		return arrayT
